@@ -2,7 +2,7 @@
 //! histogram sample exactly once, gauges report the last value set, every readout writes each metric under its
 //! registered name with its labels as dimensions and its described unit.
 //!
-//! Two kinds of case lines (names, label keys/values and units are ids into fixed pools, see `NAMES` …):
+//! Kinds of case lines (names, label keys/values and units are ids into fixed pools, see `NAMES` …):
 //!
 //! * `script <emit_zero 0|1> <tok>…` — a sequential script over one real `MetricRecorder<dyn metrics::Recorder>`
 //!   (tokens as in `lean/Driver/MetricsRs.lean`: `rc/rg/rh:<key>`, `c:<key>:<n>`, `ci:<key>:<n>`, `g:<key>:<bits>`,
@@ -24,6 +24,12 @@
 //!   as above. Correspondence: the aggregate over all readouts equals the single readout of the model run on any
 //!   sequentialisation of the same ops (theorems `c20_counter_conservation`, `c20_hist_conservation` say the
 //!   aggregate is schedule independent).
+//!
+//! * `window <emit_zero> <fillers> <kind><unit>…` — see `WindowCase`: a describe + registration + update lands inside a
+//!   readout that is in progress (hook point 20 at the start of the registry walk, or a released second thread).
+//! * `reporter <emit_zero> <ct|mt> <interval ms> <step>… [| …]` — see `ReporterCase`: the public `MetricReporter` task
+//!   (periodic publishes, `shutdown()`), including a shutdown that starts before the task was ever polled or right
+//!   after a periodic publish.
 //!
 //! Extra (opt-in, `--u32-probe 1`): 2^32 records into one bucket between two readouts — `bucket.count() as u32`
 //! in `metrics_histogram::Histogram::drain` truncates (see notes/C20.md).
@@ -217,12 +223,14 @@ enum Case {
     Script { ez: bool, ops: Vec<Op> },
     Conc { ez: bool, readers: usize, rep: usize, threads: Vec<Vec<Op>> },
     Window(WindowCase),
+    Reporter(ReporterCase),
 }
 
 impl Case {
     fn encode(&self) -> String {
         match self {
             Case::Window(w) => w.encode(),
+            Case::Reporter(r) => r.encode(),
             Case::Script { ez, ops } => format!("script {} {}", *ez as u8, enc_ops(ops)),
             Case::Conc { ez, readers, rep, threads } => format!(
                 "conc {} {} {} {}",
@@ -237,6 +245,9 @@ impl Case {
         let s = s.trim();
         if s.starts_with("window ") {
             return WindowCase::decode(s).map(Case::Window);
+        }
+        if s.starts_with("reporter ") {
+            return ReporterCase::decode(s).map(Case::Reporter);
         }
         if let Some(rest) = s.strip_prefix("script ") {
             let (ez, ops) = rest.split_once(' ').unwrap_or((rest, ""));
@@ -967,6 +978,25 @@ fn run_conc(ez: bool, readers: usize, rep: usize, threads: &[Vec<Op>]) -> ConcRu
     let overlapping = all.iter().filter(|(_, live)| *live).count();
     let n_readouts = all.len() + 1;
 
+    let (failure, aggregate) = judge(ez, rep, threads, &all, &fin, no_final);
+    if panicked.load(Ordering::SeqCst) && panic.is_none() {
+        panic = Some("updater panicked".into());
+    }
+    ConcRun { aggregate, readouts: n_readouts, overlapping_readouts: overlapping, failure, panic }
+}
+
+/// The totals oracle shared by the concurrent and the reporter stage: `threads` is what was asked of the bridge (each
+/// list `rep` times), `all` the readouts taken while that happened, `fin` the last readout (taken after everything).
+/// Returns the first failure and the aggregate over all readouts rendered as one entry.
+fn judge(
+    ez: bool,
+    rep: usize,
+    threads: &[Vec<Op>],
+    all: &[(CanonEntry, bool)],
+    fin: &CanonEntry,
+    no_final: bool,
+) -> (Option<(&'static str, String)>, String) {
+    let n_readouts = all.len() + 1;
     // what was asked of the bridge
     let mut inc_total: BTreeMap<KeyId, u64> = BTreeMap::new();
     let mut gauge_sets: BTreeMap<KeyId, BTreeSet<u64>> = BTreeMap::new();
@@ -1051,7 +1081,7 @@ fn run_conc(ez: bool, readers: usize, rep: usize, threads: &[Vec<Op>]) -> ConcRu
     let mut final_gauges: BTreeMap<KeyId, u64> = BTreeMap::new();
     let mut final_units: BTreeMap<(char, KeyId), usize> = BTreeMap::new();
     let n_all = all.len();
-    for (ei, e) in all.iter().map(|(e, _)| e).chain(std::iter::once(&fin)).enumerate() {
+    for (ei, e) in all.iter().map(|(e, _)| e).chain(std::iter::once(fin)).enumerate() {
         let is_final = ei == n_all;
         if let Some(f) = check_shape(e) {
             fail(f);
@@ -1178,7 +1208,7 @@ fn run_conc(ez: bool, readers: usize, rep: usize, threads: &[Vec<Op>]) -> ConcRu
     let mut items: Vec<Item> = vec![];
     for (k, total) in &ctr_sum {
         if *total != 0 || ez {
-            let unit = final_units.get(&('C', k.clone())).copied().unwrap_or_else(|| unit_of(&described, k.name));
+            let unit = final_units.get(&('C', k.clone())).copied().unwrap_or_else(|| unit_of(&described, threads, k.name));
             items.push(Item { kind: 'C', key: Ok(k.clone()), unit: Ok(unit), obs: vec![ObsC::U(*total)] });
         }
     }
@@ -1200,13 +1230,15 @@ fn run_conc(ez: bool, readers: usize, rep: usize, threads: &[Vec<Op>]) -> ConcRu
         });
     }
     let agg = CanonEntry { ts: 1, split: 1, other_cfg: 0, items, errors: vec![] };
-    if panicked.load(Ordering::SeqCst) && panic.is_none() {
-        panic = Some("updater panicked".into());
-    }
-    ConcRun { aggregate: entry_str(&agg), readouts: n_readouts, overlapping_readouts: overlapping, failure, panic }
+    (failure, entry_str(&agg))
 }
 
-fn unit_of(described: &BTreeMap<usize, BTreeSet<usize>>, name: usize) -> usize {
+/// the unit a metric of `name` ends up with: the last describe when there is one thread of updates, else the
+/// (by construction single) described unit
+fn unit_of(described: &BTreeMap<usize, BTreeSet<usize>>, threads: &[Vec<Op>], name: usize) -> usize {
+    if let [only] = threads {
+        return only.iter().rev().find_map(|o| if let Op::D(n, u) = o { (*n == name).then_some(*u) } else { None }).unwrap_or(0);
+    }
     described.get(&name).and_then(|s| s.iter().next().copied()).unwrap_or(0)
 }
 
@@ -1654,6 +1686,406 @@ fn window_model_request(ez: bool, round: usize, kind: char, unit: usize) -> Stri
 }
 
 // ------------------------------------------------------------------------------------------------
+// reporter stage: the public `MetricReporter` (periodic publishes, then `shutdown()`)
+
+#[derive(Clone, Debug, PartialEq)]
+enum RStepH {
+    Op(Op),
+    /// `tokio::task::yield_now().await`
+    Yield,
+    /// `tokio::time::sleep(ms).await`
+    Sleep(u64),
+    /// at the reporter's next publish, inside the sink (i.e. between the periodic publish and the task's next look at
+    /// the shutdown token): apply the ops, then start `shutdown()` (poll it once: the token is cancelled); the script
+    /// waits for that publish
+    CancelInSink(Vec<Op>),
+}
+
+/// `reporter <emit_zero> <ct|mt> <interval ms> <step>… [| <step>…]`: one reporter (own recorder, own sink) per script;
+/// `ct` = current-thread runtime with paused time (deterministic), `mt` = multi-thread runtime, real time. After the
+/// last step every script calls `reporter.shutdown().await`. Oracle: when `shutdown()` has returned, the published
+/// readouts account for everything (totals per counter, every histogram sample, last gauge values, units, shape).
+#[derive(Clone, Debug)]
+struct ReporterCase {
+    ez: bool,
+    mt: bool,
+    interval_ms: u64,
+    scripts: Vec<Vec<RStepH>>,
+}
+
+impl ReporterCase {
+    fn encode(&self) -> String {
+        let enc_step = |st: &RStepH| match st {
+            RStepH::Op(o) => o.enc(),
+            RStepH::Yield => "y".to_string(),
+            RStepH::Sleep(ms) => format!("s{ms}"),
+            RStepH::CancelInSink(ops) => format!("K({})", ops.iter().map(|o| o.enc()).collect::<Vec<_>>().join(",")),
+        };
+        format!(
+            "reporter {} {} {} {}",
+            self.ez as u8,
+            if self.mt { "mt" } else { "ct" },
+            self.interval_ms,
+            self.scripts.iter().map(|sc| sc.iter().map(enc_step).collect::<Vec<_>>().join(" ")).collect::<Vec<_>>().join(" | ")
+        )
+    }
+    fn decode(s: &str) -> Option<ReporterCase> {
+        let rest = s.strip_prefix("reporter ")?;
+        let mut it = rest.splitn(4, ' ');
+        let ez = parse_bool(it.next()?)?;
+        let mt = match it.next()? {
+            "mt" => true,
+            "ct" => false,
+            _ => return None,
+        };
+        let interval_ms: u64 = it.next()?.parse().ok()?;
+        let body = it.next().unwrap_or("");
+        let mut scripts = vec![];
+        for part in body.split('|') {
+            let mut sc = vec![];
+            for t in part.split_whitespace() {
+                sc.push(if t == "y" {
+                    RStepH::Yield
+                } else if let Some(inner) = t.strip_prefix("K(").and_then(|x| x.strip_suffix(')')) {
+                    let ops: Option<Vec<Op>> = inner.split(',').filter(|x| !x.is_empty()).map(Op::dec).collect();
+                    RStepH::CancelInSink(ops?)
+                } else if let Some(ms) = t.strip_prefix('s').and_then(|x| x.parse::<u64>().ok()) {
+                    RStepH::Sleep(ms)
+                } else {
+                    match Op::dec(t)? {
+                        Op::R | Op::Ci(..) => return None,
+                        o => RStepH::Op(o),
+                    }
+                });
+            }
+            scripts.push(sc);
+        }
+        if interval_ms == 0 || scripts.is_empty() {
+            return None;
+        }
+        // an update made after the shutdown has begun is not owed a readout: nothing but suspensions may follow `K(..)`
+        for sc in &scripts {
+            if let Some(k) = sc.iter().position(|s| matches!(s, RStepH::CancelInSink(_))) {
+                if sc[k + 1..].iter().any(|s| !matches!(s, RStepH::Yield)) {
+                    return None;
+                }
+            }
+        }
+        Some(ReporterCase { ez, mt, interval_ms, scripts })
+    }
+}
+
+#[derive(Clone)]
+struct RSink {
+    entries: Arc<std::sync::Mutex<Vec<(CanonEntry, bool)>>>,
+    /// `u` per applied op, `P` per published readout, in order
+    log: Arc<std::sync::Mutex<String>>,
+    armed: Arc<std::sync::Mutex<Option<Vec<Op>>>>,
+    applied_in_sink: Arc<std::sync::Mutex<Vec<Op>>>,
+    reporter: Arc<std::sync::Mutex<Option<(metrique_metricsrs::MetricReporter, Rec)>>>,
+    notify: Arc<tokio::sync::Notify>,
+    /// set by the sink when an armed `K(..)` has been carried out completely
+    k_done: Arc<AtomicBool>,
+}
+
+impl metrique_writer_core::AnyEntrySink for RSink {
+    fn append_any(&self, entry: impl Entry + Send + 'static) {
+        let e = canon_entry(&replay(&entry));
+        self.entries.lock().unwrap().push((e, true));
+        self.log.lock().unwrap().push('P');
+        let armed = self.armed.lock().unwrap().take();
+        if let Some(ops) = armed {
+            let rr = self.reporter.lock().unwrap().clone();
+            if let Some((rp, rec)) = rr {
+                let mut handles = HashMap::new();
+                for (i, op) in ops.iter().enumerate() {
+                    apply(&rec, &mut handles, op, i + 1);
+                    self.log.lock().unwrap().push('u');
+                }
+                *self.applied_in_sink.lock().unwrap() = ops;
+                // `shutdown()` begins: its first poll cancels the token (the rest of it is awaited by the script later)
+                let mut fut = Box::pin(async move { rp.shutdown().await });
+                let _ = std::future::Future::poll(fut.as_mut(), &mut std::task::Context::from_waker(std::task::Waker::noop()));
+            }
+            self.k_done.store(true, Ordering::SeqCst);
+            self.notify.notify_one();
+        }
+    }
+    fn flush_async(&self) -> metrique_writer_core::sink::FlushWait {
+        metrique_writer_core::sink::FlushWait::ready()
+    }
+}
+
+struct ReporterScriptRun {
+    log: String,
+    /// every op applied, in the order applied
+    applied: Vec<Op>,
+    published: usize,
+    failure: Option<(&'static str, String)>,
+    aggregate: String,
+}
+
+async fn run_reporter_script(ez: bool, interval_ms: u64, script: &[RStepH]) -> ReporterScriptRun {
+    let sink = RSink {
+        entries: Default::default(),
+        log: Default::default(),
+        armed: Default::default(),
+        applied_in_sink: Default::default(),
+        reporter: Default::default(),
+        notify: Default::default(),
+        k_done: Default::default(),
+    };
+    let (reporter, rec): (metrique_metricsrs::MetricReporter, Rec) = metrique_metricsrs::MetricReporter::builder()
+        .metrics_sink((sink.clone(), ()))
+        .emit_zero_counters(ez)
+        .metrics_publish_interval(std::time::Duration::from_millis(interval_ms))
+        .metrics_rs_version::<dyn metrics::Recorder>()
+        .build_without_installing();
+    *sink.reporter.lock().unwrap() = Some((reporter.clone(), rec.clone()));
+    let mut handles = HashMap::new();
+    let mut applied: Vec<Op> = vec![];
+    for (i, st) in script.iter().enumerate() {
+        match st {
+            RStepH::Op(op) => {
+                apply(&rec, &mut handles, op, i);
+                sink.log.lock().unwrap().push('u');
+                applied.push(op.clone());
+            }
+            RStepH::Yield => tokio::task::yield_now().await,
+            RStepH::Sleep(ms) => tokio::time::sleep(std::time::Duration::from_millis(*ms)).await,
+            RStepH::CancelInSink(ops) => {
+                sink.k_done.store(false, Ordering::SeqCst);
+                *sink.armed.lock().unwrap() = Some(ops.clone());
+                // wait for the publish that carries it out (bounded: a task that has already ended never publishes again)
+                let wait = async {
+                    while !sink.k_done.load(Ordering::SeqCst) {
+                        sink.notify.notified().await;
+                    }
+                };
+                let _ = tokio::time::timeout(std::time::Duration::from_millis(interval_ms * 3 + 2_000), wait).await;
+                if sink.armed.lock().unwrap().take().is_none() {
+                    // it was picked up: the sink finishes it (it may still be in the middle of it on another worker)
+                    while !sink.k_done.load(Ordering::SeqCst) {
+                        tokio::task::yield_now().await;
+                    }
+                    applied.extend(std::mem::take(&mut *sink.applied_in_sink.lock().unwrap()));
+                }
+            }
+        }
+    }
+    reporter.shutdown().await;
+    *sink.reporter.lock().unwrap() = None;
+    let mut got = std::mem::take(&mut *sink.entries.lock().unwrap());
+    let published = got.len();
+    let (fin, no_final) = match got.pop() {
+        Some((last, _)) => (last, false),
+        None => (CanonEntry { ts: 1, split: 1, other_cfg: 0, items: vec![], errors: vec![] }, true),
+    };
+    let (mut failure, aggregate) = judge(ez, 1, std::slice::from_ref(&applied), &got, &fin, no_final);
+    if no_final {
+        // nothing at all was published: a loss exactly when something had been recorded
+        failure = if applied.is_empty() {
+            None
+        } else {
+            Some((
+                "metricsrs:reporter-final-publish",
+                format!(
+                    "`shutdown().await` returned but no readout was ever published: the {} update(s) made before the shutdown call are lost",
+                    applied.len()
+                ),
+            ))
+        };
+    }
+    let log = sink.log.lock().unwrap().clone();
+    ReporterScriptRun { log, applied, published, failure, aggregate }
+}
+
+fn run_reporter(c: &ReporterCase) -> Result<Vec<ReporterScriptRun>, String> {
+    let rt = if c.mt {
+        tokio::runtime::Builder::new_multi_thread().worker_threads(2).enable_time().build()
+    } else {
+        tokio::runtime::Builder::new_current_thread().enable_time().start_paused(true).build()
+    }
+    .map_err(|e| e.to_string())?;
+    catch(|| {
+        rt.block_on(async {
+            let mut out = vec![];
+            if c.scripts.len() == 2 {
+                let (a, b) = tokio::join!(
+                    run_reporter_script(c.ez, c.interval_ms, &c.scripts[0]),
+                    run_reporter_script(c.ez, c.interval_ms, &c.scripts[1])
+                );
+                out.push(a);
+                out.push(b);
+            } else {
+                for sc in &c.scripts {
+                    out.push(run_reporter_script(c.ez, c.interval_ms, sc).await);
+                }
+            }
+            out
+        })
+    })
+}
+
+fn reporter_failure(c: &ReporterCase) -> Option<(String, String)> {
+    match run_reporter(c) {
+        Err(p) => Some(("metricsrs:panic".into(), format!("panic: {p}"))),
+        Ok(runs) => runs.into_iter().find_map(|r| r.failure.map(|(k, w)| (k.to_string(), w))),
+    }
+}
+
+/// the task-level trace of a single-script `ct` case (current-thread runtime, paused clock: the schedule is
+/// determined by the script) for the Lean model of the reporter task: `u` update, `c` cancel, `t0`/`t1` task step
+fn reporter_task_trace(c: &ReporterCase) -> Option<String> {
+    if c.mt || c.scripts.len() != 1 {
+        return None;
+    }
+    let mut tr: Vec<&str> = vec![];
+    let (mut started, mut now, mut next_tick) = (false, 0u64, 0u64);
+    let iv = c.interval_ms;
+    for st in &c.scripts[0] {
+        if !matches!(st, RStepH::Op(_)) && !started {
+            // the spawned task is polled for the first time when the script first suspends
+            tr.push("t0");
+            started = true;
+            next_tick = now + iv;
+        }
+        match st {
+            RStepH::Op(_) => tr.push("u"),
+            RStepH::Yield => {}
+            RStepH::Sleep(ms) => {
+                let end = now + ms;
+                while next_tick <= end {
+                    if next_tick == end {
+                        return None; // the script's timer and the reporter's fire at the same instant: order unspecified
+                    }
+                    tr.push("t1");
+                    next_tick += iv;
+                }
+                now = end;
+            }
+            RStepH::CancelInSink(ops) => {
+                now = next_tick;
+                next_tick += iv;
+                tr.push("t1");
+                for _ in ops {
+                    tr.push("u");
+                }
+                tr.extend(["c", "t0", "t0"]);
+            }
+        }
+    }
+    tr.extend(["c", "t0", "t0"]);
+    Some(format!("reportertask orig {}", tr.join(" ")))
+}
+
+fn gen_reporter_ops(rng: &mut Rng, n: usize) -> Vec<Op> {
+    let keys: Vec<KeyId> = (0..rng.range(1, 3)).map(|_| gen_key(rng, true)).collect();
+    (0..n)
+        .map(|_| {
+            let k = rng.pick(&keys).clone();
+            match rng.below(10) {
+                0..=4 => Op::C(k, rng.range(1, 9)),
+                5..=6 => Op::G(k, gen_gauge_bits(rng)),
+                7 => Op::D(k.name, rng.range(1, UNITS.len() as u64 - 1) as usize),
+                _ => Op::H(k, gen_sample_bits(rng)),
+            }
+        })
+        .collect()
+}
+
+fn gen_reporter_case(rng: &mut Rng, i: usize) -> ReporterCase {
+    let mt = i % 5 == 4;
+    // `ct`: interval 1000 ms, sleeps ≡ 100 (mod 1000), at most 9 of them: a script timer never coincides with a tick
+    let interval_ms = if mt { rng.range(1, 3) } else { 1000 };
+    let mut mk = |rng: &mut Rng, i: usize| -> Vec<RStepH> {
+        let mut sc = vec![];
+        // yields before the updates: 0, 1, 2
+        for _ in 0..(i % 3) {
+            sc.push(RStepH::Yield);
+        }
+        let mut sleeps = 0;
+        let segments = if i % 4 == 0 { 1 } else { rng.range(1, 4) };
+        for seg in 0..segments {
+            let n_ops = rng.range(1, 6) as usize;
+            for op in gen_reporter_ops(rng, n_ops) {
+                sc.push(RStepH::Op(op));
+            }
+            if seg + 1 < segments && sleeps < 9 {
+                sleeps += 1;
+                sc.push(RStepH::Sleep(if mt { rng.range(1, 6) } else { rng.below(3) * 1000 + 100 }));
+                if rng.chance(1, 3) {
+                    sc.push(RStepH::Yield);
+                }
+            }
+        }
+        // sometimes the shutdown starts right after a periodic publish, with updates in that window
+        if (i / 3) % 4 == 3 {
+            let n_ops = rng.range(1, 4) as usize;
+            sc.push(RStepH::CancelInSink(gen_reporter_ops(rng, n_ops)));
+        }
+        // yields before the shutdown: 0, 1, 2
+        for _ in 0..((i / 3) % 3) {
+            sc.push(RStepH::Yield);
+        }
+        sc
+    };
+    let mut scripts = vec![mk(rng, i)];
+    if i % 7 == 6 {
+        scripts.push(mk(rng, i + 1));
+    }
+    ReporterCase { ez: rng.chance(1, 3), mt, interval_ms, scripts }
+}
+
+/// `build_and_install()` once per process: updates through the global recorder (macros without a local recorder)
+/// from two threads, then `shutdown()`
+fn run_global_reporter() -> Option<(&'static str, String)> {
+    let rt = tokio::runtime::Builder::new_multi_thread().worker_threads(2).enable_time().build().ok()?;
+    let sink = RSink {
+        entries: Default::default(),
+        log: Default::default(),
+        armed: Default::default(),
+        applied_in_sink: Default::default(),
+        reporter: Default::default(),
+        notify: Default::default(),
+        k_done: Default::default(),
+    };
+    let reporter = {
+        let _g = rt.enter();
+        catch(|| {
+            metrique_metricsrs::MetricReporter::builder()
+                .metrics_sink((sink.clone(), ()))
+                .metrics_publish_interval(std::time::Duration::from_millis(2))
+                .metrics_rs_version::<dyn metrics::Recorder>()
+                .build_and_install()
+        })
+        .ok()?
+    };
+    let k = KeyId { name: 0, labels: vec![] };
+    let h = KeyId { name: 1, labels: vec![(0, 0)] };
+    let per_thread: Vec<Op> = (0..4000).map(|i| if i % 3 == 0 { Op::H(h.clone(), (i as f64).to_bits()) } else { Op::C(k.clone(), 1 + i % 4) }).collect();
+    std::thread::scope(|s| {
+        for _ in 0..2 {
+            s.spawn(|| {
+                for op in &per_thread {
+                    match op {
+                        Op::C(k, n) => metrics::counter!(NAMES[k.name]).increment(*n),
+                        Op::H(k, b) => metrics::histogram!(NAMES[k.name], LKEYS[0] => LVALS[0]).record(f64::from_bits(*b)),
+                        _ => {}
+                    }
+                }
+            });
+        }
+    });
+    rt.block_on(reporter.shutdown());
+    let mut got = std::mem::take(&mut *sink.entries.lock().unwrap());
+    let Some((fin, _)) = got.pop() else {
+        return Some(("metricsrs:reporter-final-publish", "global reporter: nothing published on shutdown".into()));
+    };
+    judge(false, 1, &[per_thread.clone(), per_thread.clone()], &got, &fin, false).0
+}
+
+// ------------------------------------------------------------------------------------------------
 
 fn conc_failure(ez: bool, readers: usize, rep: usize, threads: &[Vec<Op>], tries: usize) -> Option<(String, String)> {
     for _ in 0..tries {
@@ -1748,6 +2180,12 @@ fn main() {
             let rounds = (0..rng.range(6, 10)).map(|_| (*rng.pick(&['c', 'g', 'h', 'h']), rng.range(1, UNITS.len() as u64 - 1) as usize)).collect();
             // windows first: they are the cheapest way to fail fast on an ordering defect
             cases.insert(i, Case::Window(WindowCase { ez: i % 3 != 2, fillers, rounds }));
+        }
+    }
+    if args.replay_case().is_none() {
+        let n_rep = if thorough { 1500 } else { 150 };
+        for i in 0..n_rep {
+            cases.push(Case::Reporter(gen_reporter_case(&mut rng, i)));
         }
     }
     install_window_hook();
@@ -1865,6 +2303,76 @@ fn main() {
                     expect.push((ci, r.first_reports[round].clone().unwrap_or("-".into()), "metricsrs/window", fresh));
                 }
             }
+            Case::Reporter(rc) => {
+                let runs = run_reporter(rc);
+                let n_updates: usize = rc.scripts.iter().flatten().filter(|s| matches!(s, RStepH::Op(_) | RStepH::CancelInSink(_))).count();
+                rep.case(&enc, n_updates > 0);
+                rep.bump("kind:reporter");
+                rep.bump(if rc.mt { "reporter:multi-thread runtime" } else { "reporter:current-thread runtime (paused clock)" });
+                rep.bump(&format!("reporter:scripts:{}", rc.scripts.len()));
+                let first = rc.scripts[0].iter().position(|s| matches!(s, RStepH::Op(_)));
+                let suspends_before = rc.scripts[0].iter().take(first.unwrap_or(0)).filter(|s| !matches!(s, RStepH::Op(_))).count();
+                rep.bump(&format!("reporter:suspensions before the first update:{}", suspends_before.min(2)));
+                let last = rc.scripts[0].iter().rposition(|s| matches!(s, RStepH::Op(_) | RStepH::CancelInSink(_)));
+                let after = rc.scripts[0].iter().skip(last.map(|l| l + 1).unwrap_or(0)).count();
+                rep.bump(&format!("reporter:suspensions between the last update and shutdown:{}", after.min(2)));
+                if rc.scripts.iter().flatten().any(|s| matches!(s, RStepH::CancelInSink(_))) {
+                    rep.bump("reporter:shutdown started right after a periodic publish");
+                }
+                rep.traces_validated += 1;
+                let failure = match &runs {
+                    Err(p) => Some(("metricsrs:panic".to_string(), format!("panic: {p}"))),
+                    Ok(rs) => rs.iter().find_map(|r| r.failure.clone().map(|(k, w)| (k.to_string(), w))),
+                };
+                if failure.is_some() {
+                    rep.bump("oracle-failing-cases");
+                }
+                if let Some((key, what)) = failure.filter(|(k, _)| !rep.oracle_failures.iter().any(|f| f.key == *k)) {
+                    // shrink: fewer scripts, then fewer steps
+                    let mut cur = rc.clone();
+                    let tries = if rc.mt { 4 } else { 1 };
+                    let fails = |c: &ReporterCase| {
+                        ReporterCase::decode(&c.encode()).is_some()
+                            && (0..tries).any(|_| reporter_failure(c).map(|(k, _)| k == key).unwrap_or(false))
+                    };
+                    if cur.scripts.len() > 1 {
+                        for i in 0..cur.scripts.len() {
+                            let one = ReporterCase { scripts: vec![cur.scripts[i].clone()], ..cur.clone() };
+                            if fails(&one) {
+                                cur = one;
+                                break;
+                            }
+                        }
+                    }
+                    for si in 0..cur.scripts.len() {
+                        let base = cur.clone();
+                        let small = shrink_list(&cur.scripts[si], |cand| {
+                            let mut c2 = base.clone();
+                            c2.scripts[si] = cand.to_vec();
+                            fails(&c2)
+                        });
+                        cur.scripts[si] = small;
+                    }
+                    let what2 = reporter_failure(&cur).map(|(_, w)| w).unwrap_or(what);
+                    let imp = run_reporter(&cur).map(|rs| rs.iter().map(|r| format!("{} published; log {}", r.published, r.log)).collect::<Vec<_>>().join(" | ")).unwrap_or_default();
+                    rep.oracle_failure(&key, &cur.encode(), &imp, &what2);
+                }
+                if let Ok(rs) = &runs {
+                    rep.bump_by("reporter:published readouts", rs.iter().map(|r| r.published as u64).sum());
+                    if ci % 41 == 0 {
+                        rep.sample(json!({"case": enc, "log": rs.iter().map(|r| r.log.clone()).collect::<Vec<_>>()}));
+                    }
+                    for r in rs {
+                        let (req, masked) = conc_model_request(rc.ez, 1, std::slice::from_ref(&r.applied));
+                        requests.push(req);
+                        expect.push((ci, mask_gauges(&r.aggregate, &masked), "metricsrs/reporter-aggregate", masked));
+                    }
+                    if let Some(req) = reporter_task_trace(rc) {
+                        requests.push(req);
+                        expect.push((ci, format!("{}- done", rs[0].log), "metricsrs/reporter-task", BTreeSet::new()));
+                    }
+                }
+            }
             Case::Conc { ez, readers, rep: reps, threads } => {
                 let r = run_conc(*ez, *readers, *reps, threads);
                 let updated = threads.iter().flatten().any(|o| matches!(o, Op::C(..) | Op::H(..)));
@@ -1919,6 +2427,12 @@ fn main() {
         encoded.push(enc);
     }
 
+    if args.replay_case().is_none() {
+        rep.bump("reporter:global recorder (build_and_install) scenario");
+        if let Some((key, what)) = run_global_reporter() {
+            rep.oracle_failure(key, "reporter-global 2 threads x 4000 ops", "", &what);
+        }
+    }
     if let Some(h) = probe {
         if let Ok(Some((case, imp, what))) = h.join() {
             rep.oracle_failure("metricsrs:hist-count-u32-truncation", &case, &imp, &what);
@@ -1953,7 +2467,9 @@ fn main() {
         Some(replies) => {
             let mut disagreeing: Vec<usize> = vec![];
             for ((ci, want, component, masked), reply) in expect.iter().zip(replies.iter()) {
-                let got = if *component == "metricsrs/window" {
+                let got = if *component == "metricsrs/reporter-task" {
+                    reply.clone()
+                } else if *component == "metricsrs/window" {
                     let name = masked.iter().next().map(|k| k.name.to_string()).unwrap_or_default();
                     reply.split(';').find(|it| it.split('|').nth(1) == Some(name.as_str())).unwrap_or("-").to_string()
                 } else {
@@ -2003,6 +2519,13 @@ fn main() {
                             }
                             rep.search_cases += 1;
                             script_failure(*ez, &cand).map(|(k, w)| (k, Case::Script { ez: *ez, ops: cand }.encode(), w))
+                        }
+                        Case::Reporter(rc) => {
+                            if round > 200 {
+                                break 'search;
+                            }
+                            rep.search_cases += 1;
+                            reporter_failure(rc).map(|(k, wh)| (k, rc.encode(), wh))
                         }
                         Case::Window(w) => {
                             if round > 60 {
